@@ -73,17 +73,24 @@ impl Mailbox {
         if let Some(name) = &self.name {
             email_encoding::headers::quoted_string::encode(name, w)?;
             w.space();
-            w.write_char('<')?;
+            write_unbreakable(w, &format!("<{}>", self.email))
+        } else {
+            write_unbreakable(w, self.email.as_ref())
         }
-
-        w.write_str(self.email.as_ref())?;
-
-        if self.name.is_some() {
-            w.write_char('>')?;
-        }
-
-        Ok(())
     }
+}
+
+/// Writes `word` on the current line, or on a new one when it does not fit,
+/// the line is not empty and a space, where it can be folded, precedes the word
+fn write_unbreakable(w: &mut EmailWriter<'_>, word: &str) -> FmtResult {
+    const MAX_LINE_LEN: usize = 76;
+
+    let after_space = w.projected_line_len() > w.line_len();
+    if after_space && w.line_len() > 0 && w.projected_line_len() + word.len() > MAX_LINE_LEN {
+        w.new_line()?;
+    }
+
+    w.write_str(word)
 }
 
 impl Display for Mailbox {
